@@ -7,6 +7,7 @@ import SoundeventModel.Axis
 import Proofs.Lemmas.Axis
 import Proofs.Lemmas.NDArr
 import Proofs.Lemmas.AxisKernel
+import Proofs.Lemmas.AxisCalls
 namespace SE.Proofs.C16
 open SE SE.Axis
 
@@ -585,6 +586,215 @@ theorem C16_count_robust (start step δ thr : Rat) (n : Nat) (cs : List Rat)
   refine ⟨key, ?_⟩
   rw [key, List.length_take]
   rcases hlen with hl | hl <;> omega
+
+/-! ## follow-up: call forms, histories, sessions -/
+
+/-- the value every parameter of a table is bound to by an all-positional call -/
+def rolesOf {α : Type} : List Param → List α → List (String × Option α)
+  | [], _ => []
+  | p :: ps, [] => (p.name, none) :: rolesOf ps []
+  | p :: ps, a :: as => (p.name, some a) :: rolesOf ps as
+
+/-- **Call forms.**  Under a signature table without repeated names, a call that gives the first
+    `k` arguments positionally and the others by the keyword of their parameter binds exactly as the
+    all-positional call (`k` = number of arguments) and the all-keyword call (`k = 0`) do - for every
+    `k`; and when every parameter without default is given, the all-positional call binds parameter
+    number `i` to argument number `i` (and the others to their defaults): the documented order *is*
+    the meaning of a positional call.  The tables of the five functions are re-extracted from the
+    imported code on every run and have to be `rangeSig`, `timeSig`, `freqSig`, `indexSig`, `setSig`
+    (obligations `sig_*`); these are well formed. -/
+theorem C16_call_forms {α : Type} (s : Sig) (hwf : s.WellFormed) (vals : List α)
+    (hlen : vals.length ≤ s.params.length) :
+    (∀ k, bindCall s (vals.take k) ((s.names.zip vals).drop k) = bindCall s vals []) ∧
+    (((s.params.drop vals.length).all (fun p => !p.required)) = true →
+      bindCall s vals [] = .ok (rolesOf s.params vals, [])) ∧
+    rangeSig.WellFormed ∧ timeSig.WellFormed ∧ freqSig.WellFormed ∧ indexSig.WellFormed ∧ setSig.WellFormed := by
+  have hextra : ∀ k, extraKw s ((s.names.zip vals).drop k) = [] := by
+    intro k
+    simp only [extraKw, List.filter_eq_nil_iff]
+    intro e he
+    have h1 : e ∈ s.names.zip vals := List.mem_of_mem_drop he
+    have h2 : e.1 ∈ s.names := (List.of_mem_zip (a := e.1) (b := e.2) h1).1
+    simpa using h2
+  refine ⟨?_, ?_, by decide, by decide, by decide, by decide, by decide⟩
+  · intro k
+    have hb := bindParams_split s.params vals k hwf hlen
+    simp only [bindCall, hextra k]
+    simp only [Sig.names] at hb ⊢
+    rw [hb]
+    simp [extraKw]
+  · intro hreq
+    have hb : ∀ (ps : List Param) (vs : List α), vs.length ≤ ps.length →
+        ((ps.drop vs.length).all (fun p => !p.required)) = true →
+        bindParams ps vs [] = .ok (rolesOf ps vs) := by
+      intro ps
+      induction ps with
+      | nil =>
+        intro vs hl _
+        cases vs with
+        | nil => simp [bindParams, rolesOf]
+        | cons a as => simp at hl
+      | cons p ps ih =>
+        intro vs hl hr
+        cases vs with
+        | nil =>
+          have hp : p.required = false := by simpa using (by simpa using hr : (!p.required) = true ∧ _).1
+          have hr' : ((ps.drop ([] : List α).length).all (fun p => !p.required)) = true := by
+            simpa using (by simpa using hr : (!p.required) = true ∧ _).2
+          simp [bindParams, rolesOf, hp, ih [] (by simp) hr']
+        | cons a as =>
+          have hl' : as.length ≤ ps.length := by simpa using hl
+          have hr' : ((ps.drop as.length).all (fun p => !p.required)) = true := by simpa using hr
+          simp [bindParams, rolesOf, ih as hl' hr']
+    simp [bindCall, extraKw, hb s.params vals hlen hreq]
+
+theorem rolesOf_append {α : Type} (ps qs : List Param) (vals : List α) (h : vals.length ≤ ps.length) :
+    rolesOf (ps ++ qs) vals = rolesOf ps vals ++ qs.map (fun p => (p.name, none)) := by
+  induction ps generalizing vals with
+  | nil =>
+    have : vals = [] := by simpa using h
+    subst this
+    induction qs with
+    | nil => rfl
+    | cons q qs ih => simpa [rolesOf] using ih
+  | cons p ps ih =>
+    cases vals with
+    | nil => simpa [rolesOf] using ih [] (by simp)
+    | cons a as => simpa [rolesOf] using ih as (by simpa using h)
+
+/-- **Extended tables.**  A table that extends a documented one (the documented parameters first,
+    unchanged, then only parameters with defaults) binds every call that gives at most the documented
+    parameters positionally exactly as the documented table does - the new parameters take their
+    defaults.  (The obligations `sig_*` ask for `Extends`, so that a new optional parameter is not an
+    alarm, a reordered, renamed, removed or newly required one is.) -/
+theorem C16_sig_extends {α : Type} (s ref : Sig) (hwf : s.WellFormed) (hr : ref.WellFormed)
+    (hext : s.Extends ref = true) (vals : List α) (hlen : vals.length ≤ ref.params.length)
+    (hreq : ((ref.params.drop vals.length).all (fun p => !p.required)) = true) :
+    bindCall s vals [] =
+      .ok (rolesOf ref.params vals ++ (s.params.drop ref.params.length).map (fun p => (p.name, none)), []) ∧
+    bindCall ref vals [] = .ok (rolesOf ref.params vals, []) := by
+  simp only [Sig.Extends, Bool.and_eq_true, beq_iff_eq] at hext
+  obtain ⟨⟨htake, hopt⟩, _⟩ := hext
+  have hsplit : s.params = ref.params ++ s.params.drop ref.params.length := by
+    conv => lhs; rw [← List.take_append_drop ref.params.length s.params]
+    rw [htake]
+  have hlen' : vals.length ≤ s.params.length := by
+    rw [hsplit, List.length_append]; omega
+  have hreq' : ((s.params.drop vals.length).all (fun p => !p.required)) = true := by
+    rw [hsplit, List.drop_append_of_le_length hlen, List.all_append, hreq]
+    simpa using hopt
+  refine ⟨?_, (C16_call_forms ref hr vals hlen).2.1 hreq⟩
+  rw [(C16_call_forms s hwf vals hlen').2.1 hreq']
+  conv => lhs; rw [hsplit]
+  rw [rolesOf_append _ _ _ hlen]
+
+example : ({ rangeSig with params := rangeSig.params ++ [.opt "endpoint" "False"] } : Sig).Extends rangeSig = true := by decide
+example : ({ rangeSig with params := [.req "name", .req "start", .req "stop", .opt "size" "None",
+      .opt "step" "None", .opt "dtype" "float64"] } : Sig).Extends rangeSig = false := by decide
+
+-- the positional call in the documented order: `create_range_dim("x", 0, 1, 1/4)`
+example : bindCall rangeSig ["x", "0", "1", "1/4"] [] =
+    .ok ([("name", some "x"), ("start", some "0"), ("stop", some "1"), ("step", some "1/4"), ("size", none),
+          ("dtype", none)], []) := by decide
+-- the same call with `step` by keyword and an attribute
+example : bindCall rangeSig ["x", "0", "1"] [("step", "1/4"), ("units", "s")] =
+    .ok ([("name", some "x"), ("start", some "0"), ("stop", some "1"), ("step", some "1/4"), ("size", none),
+          ("dtype", none)], [("units", "s")]) := by decide
+-- a table with `step` and `size` swapped binds the fourth positional argument to `size`: it is not `rangeSig`
+example : bindCall { rangeSig with params := [.req "name", .req "start", .req "stop", .opt "size" "None",
+      .opt "step" "None", .opt "dtype" "float64"] } ["x", "0", "1", "1/4"] [] ≠ bindCall rangeSig ["x", "0", "1", "1/4"] [] := by
+  decide
+example : bindCall indexSig ["a", "d", "v"] [("raise", "False")] = .error .unexpected := by decide
+example : bindCall indexSig ["a", "d"] [] = .error .missing := by decide
+example : bindCall indexSig ["a", "d", "v", "r"] [("raise_error", "r")] = .error .multiple := by decide
+
+/-- **Histories.**  Whatever state an implementation of the five functions keeps between calls (`σ`
+    is arbitrary: a cache of ranges, an index remembered on an array, a scratch buffer), it answers
+    every call of every sequence of calls in one process as the pure model does iff no state
+    reachable by some sequence of calls changes the answer of any single call.  (`RangeCall` carries the
+    *content* of the arguments at the moment of the call: an array whose coordinates were
+    re-assigned is another `RangeCall`.) -/
+theorem C16_history {σ : Type} (step : σ → RangeCall → σ × Answer) (s0 : σ) :
+    SE.History.HistoryFree step s0 callModel ↔
+      ∀ calls : List RangeCall, SE.History.runS step s0 calls = calls.map callModel :=
+  SE.History.historyFree_iff step s0 callModel
+
+/-- a cache of ranges keyed by `(start, stop)` only is not history free: the second request, with
+    another step, is answered from the cache -/
+example :
+    let step : List ((Rat × Rat) × Answer) → RangeCall → List ((Rat × Rat) × Answer) × Answer := fun cache c =>
+      match c with
+      | .range a b _ _ =>
+        match cache.lookup (a, b) with
+        | some r => (cache, r)
+        | none => (((a, b), callModel c) :: cache, callModel c)
+      | _ => (cache, callModel c)
+    SE.History.runS step [] [.range 0 1 (some (1/2)) none, .range 0 1 (some (1/4)) none] ≠
+      [RangeCall.range 0 1 (some (1/2)) none, .range 0 1 (some (1/4)) none].map callModel := by
+  decide +kernel
+
+/-- a range remembered on the array (here: for the lookups that follow the first one) is not history
+    free either: after the coordinates were re-assigned the old range still decides -/
+example :
+    let step : Option (List Rat) → RangeCall → Option (List Rat) × Answer := fun memo c =>
+      match c with
+      | .index cs v r => (some (memo.getD cs), .idx (coordIndex (memo.getD cs) v r))
+      | _ => (memo, callModel c)
+    SE.History.runS step none [.index [0, 1, 2] 1 true, .index [10, 11, 12] 11 true] ≠
+      [RangeCall.index [0, 1, 2] 1 true, .index [10, 11, 12] 11 true].map callModel := by
+  decide +kernel
+
+/-- **Sessions of writes.**  Consecutive `set_value_at_pos` calls on one live array (each call works on
+    the content the array has then; a rejected call leaves it): the array keeps its shape, the
+    answers are those of the pure model on the content of the moment, and an element whose
+    multi-index is not hit by *every* entry of the query of any of the calls holds after the
+    whole session what it held before it. -/
+theorem C16_session {α} [Inhabited α] (axes : List (List Rat)) (ws : List (Write α)) (a : NDArr α)
+    (hwf : a.data.length = size a.shape)
+    (hq : ∀ w ∈ ws, (w.1.map Prod.fst).Nodup ∧ ∀ kq ∈ w.1, kq.1 < a.shape.length) :
+    (contentAfter axes a ws).shape = a.shape ∧
+    (contentAfter axes a ws).data.length = a.data.length ∧
+    (session axes a ws).length = ws.length ∧
+    (∀ m, inBounds a.shape m = true → (∀ w ∈ ws, ¬ ∀ kq ∈ w.1, Hit axes m kq) →
+      (contentAfter axes a ws).get m = a.get m) := by
+  induction ws generalizing a with
+  | nil => simp [contentAfter, session]
+  | cons w ws ih =>
+    have hw := hq w (by simp)
+    have hrest : ∀ w' ∈ ws, (w'.1.map Prod.fst).Nodup ∧ ∀ kq ∈ w'.1, kq.1 < a.shape.length :=
+      fun w' h => hq w' (by simp [h])
+    -- one step
+    have hstep : (contentStep axes a w).shape = a.shape ∧ (contentStep axes a w).data.length = a.data.length ∧
+        ∀ m, inBounds a.shape m = true → (¬ ∀ kq ∈ w.1, Hit axes m kq) → (contentStep axes a w).get m = a.get m := by
+      unfold contentStep
+      cases hr : setValueAtPos a axes w.1 w.2 with
+      | error e => simp
+      | ok a' =>
+        obtain ⟨ix, hset, _, _, _⟩ := C16_set_value_at_pos a a' axes w.1 w.2 hw.1 hr
+        obtain ⟨hs, hl, _⟩ := C16_set_exact a a' ix w.2 hwf hset
+        obtain ⟨_, hcell, _⟩ := C16_set_cell a a' axes w.1 w.2 hwf hw.1 hw.2 hr
+        exact ⟨hs, hl, fun m hm hn => (hcell m hm).2 hn⟩
+    obtain ⟨hs, hl, hkeep⟩ := hstep
+    have hwf' : (contentStep axes a w).data.length = size (contentStep axes a w).shape := by rw [hl, hs, hwf]
+    have hq' : ∀ w' ∈ ws, (w'.1.map Prod.fst).Nodup ∧ ∀ kq ∈ w'.1, kq.1 < (contentStep axes a w).shape.length := by
+      rw [hs]; exact hrest
+    obtain ⟨i1, i2, i3, i4⟩ := ih (contentStep axes a w) hwf' hq'
+    refine ⟨?_, ?_, ?_, ?_⟩
+    · simpa [contentAfter, hs] using i1
+    · simpa [contentAfter, hl] using i2
+    · simp [session, i3]
+    · intro m hm hno
+      have h1 := i4 m (by rw [hs]; exact hm) (fun w' h => hno w' (by simp [h]))
+      have h2 := hkeep m hm (hno w (by simp))
+      simpa [contentAfter, h2] using h1
+
+-- two writes into one array: the second works on what the first left; cell (0, 0) is never addressed
+example : session [[0, 1], [0, 1, 2]] (⟨[2, 3], [0, 0, 0, 0, 0, 0]⟩ : NDArr Rat)
+      [([(0, 1)], .arr ⟨[3], [1, 2, 3]⟩), ([(1, 3/2), (0, 1)], .scalar 7), ([(0, 5)], .scalar 9)]
+    = [.ok ⟨[2, 3], [0, 0, 0, 1, 2, 3]⟩, .ok ⟨[2, 3], [0, 0, 0, 1, 7, 3]⟩, .error .key] := by decide +kernel
+example : contentAfter [[0, 1], [0, 1, 2]] (⟨[2, 3], [0, 0, 0, 0, 0, 0]⟩ : NDArr Rat)
+      [([(0, 1)], .arr ⟨[3], [1, 2, 3]⟩), ([(1, 3/2), (0, 1)], .scalar 7), ([(0, 5)], .scalar 9)]
+    = ⟨[2, 3], [0, 0, 0, 1, 7, 3]⟩ := by decide +kernel
 
 -- non-vacuity: concrete instances (hypotheses satisfiable, both branches taken)
 example : rangeCoords 0 1 (1/4) = [0, 1/4, 1/2, 3/4] := by decide +kernel
